@@ -112,8 +112,8 @@ Theorem C19_load_value : forall (fl : float_ops) (itx : Z -> Z -> Z -> str), flo
   forall (ty : dtype) (nullable : bool) (v : sqlvalue) (r : str) (ts rest : list tok),
   value_ok fl ty nullable v = true -> val_stop r -> lexes r ts ->
   lexes (sql_value_to_literal fl itx v ++ r) (value_toks fl v ++ ts)
-  /\ exists pv, parse_value fl (value_toks fl v ++ rest) = OOk (pv, rest)
-                /\ coerce_value fl pv ty = OOk v /\ normalize_value v ty = OOk v.
+  /\ exists pv cv, parse_value fl (value_toks fl v ++ rest) = OOk (pv, rest)
+                   /\ coerce_value fl pv ty = OOk cv /\ normalize_value cv ty = OOk v.
 Proof. exact load_value_thm. Qed.
 Print Assumptions C19_load_value.
 
@@ -149,10 +149,18 @@ Theorem C19_numeric_whole_refuted : forall (fl : float_ops) (b i p s : Z) (rest 
 Proof. exact numeric_whole_rejected_thm. Qed.
 Print Assumptions C19_numeric_whole_refuted.
 
+(** the former CHAR counter-example reloads as itself since the storage layer counts characters *)
+Theorem C19_char_padded_non_ascii_roundtrip : forall (fl : float_ops) (itx : Z -> Z -> Z -> str),
+  let db := one_table [col "A" (TChar 4) true] [[VCharacter [233; 32; 32; 32]]] in
+  db_ok fl db = true /\ load_sql_dump fl (dump_text fl itx (lit "x") db) = OOk db.
+Proof. exact char_padded_non_ascii_roundtrip_thm. Qed.
+Print Assumptions C19_char_padded_non_ascii_roundtrip.
+
+(** coerce_value still cuts the literal by bytes: a non-blank character beyond byte n is lost *)
 Theorem C19_char_non_ascii_refuted : forall (fl : float_ops) (itx : Z -> Z -> Z -> str),
   exists db db', load_sql_dump fl (dump_text fl itx (lit "x") db) = OOk db'
-                 /\ db = one_table [col "A" (TChar 4) true] [[VCharacter [233; 32; 32; 32]]]
-                 /\ db' = one_table [col "A" (TChar 4) true] [[VCharacter [233; 32; 32]]].
+                 /\ db = one_table [col "A" (TChar 3) true] [[VCharacter [97; 8364; 32]]]
+                 /\ db' = one_table [col "A" (TChar 3) true] [[VCharacter [97; 32; 32]]].
 Proof. exact char_non_ascii_refuted_thm. Qed.
 Print Assumptions C19_char_non_ascii_refuted.
 
